@@ -12,6 +12,7 @@ overlapped with sys.monitoring delay injection.
 import json
 import os
 import random
+import textwrap
 import sqlite3
 import threading
 
@@ -47,6 +48,9 @@ class C12:
         # one-preemption sweep: every statement line of the flusher / reader / append code in turn holds whichever thread
         # reaches it for a few milliseconds, under a few standard append/flush/read sequences
         out += [dict(kind="sweep", index=80 + i, nsweep=8, n=0, inject=False, timeout=420 if tier == "quick" else 3000) for i in range(8)]
+        # shell layer: inputs typed at the prompt go through BaseShell.default -> _append_history: one entry per executed
+        # input, verbatim, with its return code, and $LAST_RETURN_CODE in step
+        out += [dict(kind="shell", index=95 + i, n=(25 if tier == "quick" else 400), inject=False, timeout=420 if tier == "quick" else 3000) for i in range(2)]
         return out
 
     def floors(self, c, tier):
@@ -61,6 +65,8 @@ class C12:
             r.append("fewer than 200 reads overlapped a pending flusher")
         if c.get("delays_injected", 0) < 200:
             r.append("delay injection did not reach the flusher/reader code")
+        if c.get("shell_inputs_executed", 0) < 200:
+            r.append("shell layer: fewer than 200 inputs went through BaseShell.default")
         if c.get("sweep_sites", 0) < 60 or c.get("sweep_forced_delays_taken", 0) < 200:
             r.append(f"one-preemption sweep covered too little ({c.get('sweep_sites', 0)} sites, {c.get('sweep_forced_delays_taken', 0)} forced delays)")
         return r
@@ -206,6 +212,8 @@ class C12:
     def run_case(self, case, rec):
         if not hasattr(self, "XSH"):
             self._setup()
+        if case.get("backend") == "shell":
+            return self.run_shell_case(case, rec)
         if case.get("forced_site") and self.inj is None:
             # replay of a sweep witness
             from vlib.sched import Injector
@@ -358,10 +366,116 @@ class C12:
         self.inj.forced = {}
         self.inj.stop()
 
+    # ------------------------------------------------------------------ shell layer
+    INPUTS = [
+        # (lines typed, expected history text, expected return code); rc "py-ok" = 0, "py-exc" = 1
+        (["x = 1"], "x = 1\n", 0), (["2 + 2"], "2 + 2\n", 0), (["hok a b"], "hok a b\n", 0), (["hfail3 x"], "hfail3 x\n", 3), (["hok a && hfail3 b"], "hok a && hfail3 b\n", 3),
+        (["hfail3 a || hok b"], "hfail3 a || hok b\n", 0), (["hfail3 a | hok b"], "hfail3 a | hok b\n", 0), (["hok a | hfail3 b"], "hok a | hfail3 b\n", 3), (["1 / 0"], "1 / 0\n", 1),
+        (["y = $(hok q)"], "y = $(hok q)\n", 0), (["z = !(hfail3 q)"], "z = !(hfail3 q)\n", None), (["hok '\u00fcn\u00ef \U0001f600'"], "hok '\u00fcn\u00ef \U0001f600'\n", 0),
+        (["if True:", "    hok in-block", ""], "if True:\n    hok in-block\n\n", 0), (["for i in range(2):", "    hfail3 loop", ""], "for i in range(2):\n    hfail3 loop\n\n", 3),
+        (["def f():", "    return 1", ""], "def f():\n    return 1\n\n", 0), (["hok \'\'\'multi", "line\'\'\'", ""], "hok \'\'\'multi\nline\'\'\'\n\n", 0), (["hok a \\", "  b", ""], "hok a \\\n  b\n\n", 0),
+        ([" hok leading-space"], " hok leading-space\n", 0), (["hok dup"], "hok dup\n", 0), (["hok dup"], "hok dup\n", 0), (["hfail3 dup"], "hfail3 dup\n", 3),
+    ]
+
+    def run_shell_case(self, case, rec):
+        """A sequence of prompt inputs through the real BaseShell.default with a JSON history attached."""
+        import contextlib
+        import io
+
+        import xonsh.history.json as J
+        from xonsh.shells.base_shell import BaseShell
+
+        rng = random.Random(case["rseed"])
+        XSH = self.XSH
+        env = XSH.env
+        opts = set(case["histcontrol"])
+        env["HISTCONTROL"] = set(opts)
+        env["XONSH_STORE_STDOUT"] = False
+        env["XONSH_SUBPROC_RAISE_ERROR"] = False
+        self.n += 1
+        fn = os.path.join(self.dd, "history_json", f"xonsh-sh{self.n}.json")
+        h = J.JsonHistory(filename=fn, sessionid=f"sh{self.n}", buffersize=case["bufsize"], gc=False)
+        old_hist = XSH.history
+        XSH.history = h
+        XSH.aliases["hok"] = lambda args: 0
+        XSH.aliases["hfail3"] = lambda args: 3
+        ctx = {}
+        shell = BaseShell(execer=XSH.execer, ctx=ctx)
+        expected = []  # (text, rc, leading-space)
+        try:
+            with harness.alarm(120), contextlib.redirect_stdout(io.StringIO()), contextlib.redirect_stderr(io.StringIO()):
+                for _ in range(case["steps"]):
+                    lines, text, rc = rng.choice(self.INPUTS)
+                    for ln in lines:
+                        shell.precmd(ln)
+                        if ln == "":
+                            shell.emptyline()
+                        else:
+                            shell.default(ln)
+                    if shell.need_more_lines:
+                        rec.violation("shell/input-left-incomplete", case, {"lines": lines})
+                        shell.reset_buffer()
+                        continue
+                    rec.count("shell_inputs_executed")
+                    expected.append((text, rc, text[:1].isspace()))
+                    lrc = env.get("LAST_RETURN_CODE")
+                    if rc is not None and lrc != rc:
+                        rec.violation("shell/LAST_RETURN_CODE-differs-from-the-command's-return-code", case, {"input": text, "expected": rc, "got": lrc})
+                        return
+                    from vlib.session import settle
+
+                    settle(2)
+                hf = h.flush(at_exit=True)
+        except harness.CaseTimeout:
+            rec.violation("shell/HANG", case, None)
+            return
+        except BaseException as x:  # noqa
+            rec.violation(f"shell/EXCEPTION/{type(x).__name__}", case, {"msg": str(x)[:120]})
+            return
+        finally:
+            XSH.history = old_hist
+        import xonsh.lib.lazyjson as LJ
+
+        try:
+            lj = LJ.LazyJSON(fn, reopen=False)
+            stored = [(c["inp"], c["rtn"]) for c in lj.load()["cmds"]]
+            lj.close()
+        except Exception as x:  # noqa
+            rec.violation("shell/history-file-unloadable", case, {"err": repr(x)[:100]})
+            return
+        rec.case(nontrivial=(tuple(t for t, _, _ in expected), tuple(sorted(opts)), case["bufsize"]))
+        rec.count("sequences")
+        # one entry per executed input, in order, verbatim, with its return code; entries a $HISTCONTROL rule may drop are optional
+        i = 0
+        prev_stored = None
+        for text, rc, spc in expected:
+            optional = ("ignorespace" in opts and spc) or ("ignoreerr" in opts and rc not in (0, None)) or ("ignoredups" in opts and prev_stored is not None and text.rstrip() == prev_stored.rstrip())
+            same = i < len(stored) and stored[i][0] in (text, textwrap.dedent(text))  # the shell deindents what was typed (documented `spc` flag keeps the fact)
+            if same and (rc is None or stored[i][1] == rc):
+                prev_stored = text
+                i += 1
+            elif same:
+                rec.violation("shell/history-entry-has-the-wrong-return-code", case, {"input": text, "expected": rc, "stored": stored[i][1]})
+                return
+            elif not optional:
+                rec.violation("shell/executed-input-missing-from-history-or-altered", case, {"input": text, "next_stored": stored[i] if i < len(stored) else None, "position": i})
+                return
+        if i != len(stored):
+            rec.violation("shell/history-holds-an-entry-nobody-typed", case, {"extra": stored[i: i + 2]})
+
     def run_shard(self, sh, rec):
         self._setup()
         if sh["kind"] == "sweep":
             return self.run_sweep(sh, rec)
+        if sh["kind"] == "shell":
+            rng = random.Random(f"{sh['seed']}/C12/shell/{sh['index']}")
+            for i in harness.budgeted(range(sh["n"]), rec):
+                hc = [o for o in ("ignoredups", "ignoreerr", "ignorespace") if rng.random() < 0.3]
+                case = {"backend": "shell", "rseed": f"{sh['seed']}/C12/shell/{sh['index']}/{i}", "steps": 14, "bufsize": rng.choice([1, 3, 100]), "histcontrol": hc}
+                if i < 1:
+                    rec.sample(case, "shell")
+                self.run_shell_case(case, rec)
+            return
         rng = random.Random(f"{sh['seed']}/C12/{sh['index']}")
         if sh["inject"]:
             self.inj = self.injector(sh["seed"])
